@@ -35,6 +35,24 @@ class MethodMixin(object):
 
     def call_method(self, recv, name, args, kwargs, state, frame, node):
         k = recv[0]
+        if k == "dictlit" and name == "get" and args and not is_const(args[0]) and \
+                recv[1] and all(is_const(kk) for kk, _ in recv[1]) and len(recv[1]) <= 24:
+            # TABLE.get(x) with a literal-keyed table: one branch per key
+            # (x == key), plus the miss
+            default = args[1] if len(args) > 1 else NONE
+            member = ("cmp", "in", args[0], ("tuple", tuple(kk for kk, _ in recv[1])))
+            out = []
+            for (s2, b) in self.split(member, state, frame, node):
+                if not b:
+                    out.append((s2, default))
+                    continue
+                kc = self.known_const(args[0], s2)
+                val = default
+                for kk, vv in recv[1]:
+                    if kc is not None and kk == kc:
+                        val = vv
+                out.append((s2, val))
+            return out
         if k == "obj":
             fi = self.repo.method(recv[1], name)
             if fi is not None:
